@@ -532,14 +532,36 @@ func doExec(req *Req) Resp {
 	dir := ""
 	if req.Main != "" {
 		var err error
-		dir, err = os.MkdirTemp(tmpRoot, "mod-")
+		if req.Dir != "" {
+			// a directory that stays: a later request of this process finds it again and replaces
+			// the files in it (a site whose sources are redeployed between two executions)
+			dir = filepath.Join(tmpRoot, "site-"+req.Dir)
+			err = os.MkdirAll(dir, 0o755)
+		} else {
+			dir, err = os.MkdirTemp(tmpRoot, "mod-")
+			defer os.RemoveAll(dir)
+		}
 		if err != nil {
 			return Resp{Kind: "panic", Panic: "mkdir: " + err.Error()}
 		}
-		defer os.RemoveAll(dir)
 		for _, f := range req.Files {
 			p := filepath.Join(dir, f.Path)
 			os.MkdirAll(filepath.Dir(p), 0o755)
+			if req.Dir != "" {
+				// replaced like a deployment does it: a new file takes the old one's place
+				tmp := p + ".new"
+				if err := os.WriteFile(tmp, []byte(StringOf(f.Data)), 0o644); err != nil {
+					return Resp{Kind: "panic", Panic: "write: " + err.Error()}
+				}
+				if req.Mtime != 0 {
+					mt := time.Unix(req.Mtime, 0)
+					os.Chtimes(tmp, mt, mt)
+				}
+				if err := os.Rename(tmp, p); err != nil {
+					return Resp{Kind: "panic", Panic: "rename: " + err.Error()}
+				}
+				continue
+			}
 			if err := os.WriteFile(p, []byte(StringOf(f.Data)), 0o644); err != nil {
 				return Resp{Kind: "panic", Panic: "write: " + err.Error()}
 			}
